@@ -39,6 +39,11 @@ rf == <<209, 128, 209, 132>>
 LongU == { JoinWith(<<Pn(n), Pn(n), Pn(n), rf>>, DOT) : n \in 36..50 } \cup
          { JoinWith(<<Pn(n), Pn(n), Pn(n), Pn(n), rf>>, DOT) : n \in 28..36 } \cup
          { JoinWith(<<Pn(n), <<97>>, rf>>, DOT) : n \in {56, 57, 58, 59, 60, 62, 64} }
+\* label separators other than the ASCII dot (U+3002, U+FF0E, U+FF61 are mapped to '.' by IDNA)
+IdeoStop == <<227, 128, 130>>   FullStop == <<239, 188, 142>>   HalfStop == <<239, 189, 161>>
+OtherDots == UNION { { <<109, 97, 105, 108>> \o sp \o <<99, 111, 109>>, <<208, 191>> \o sp \o rf, <<120>> \o sp \o <<122, 122, 122, 113>>,
+                       <<120, DOT, 121>> \o sp \o <<99, 111, 109>>, <<120>> \o sp \o <<121>> \o sp \o <<111, 114, 103>>, <<120>> \o sp \o S_test }
+                     : sp \in {IdeoStop, FullStop, HalfStop} }
 Init == d = <<>> /\ k = 0
 Next == \/ Part = 1 /\ k < MaxLabels /\ \E l \in Labels : d' = (IF k = 0 THEN l ELSE d \o <<DOT>> \o l) /\ k' = k + 1
         \/ Part = 2 /\ k = 0 /\ \E i \in {j \in 1..NRows : TldU[j] # TldRows[j][1]} :
@@ -46,7 +51,7 @@ Next == \/ Part = 1 /\ k < MaxLabels /\ \E l \in Labels : d' = (IF k = 0 THEN l 
                                                     [] v = 2 -> TldU[i] \o <<DOT>> \o TldU[i]
                                                     [] v = 3 -> <<208, 191, DOT>> \o TldU[i]
         \/ Part = 3 /\ k = 0 /\ \E v \in Violations : d' = v /\ k' = 1
-        \/ Part = 2 /\ k = 0 /\ \E v \in LongU : d' = v /\ k' = 1
+        \/ Part = 2 /\ k = 0 /\ \E v \in LongU \cup OtherDots : d' = v /\ k' = 1
 MustReject == Part = 3
 Inv == k >= 1 => PrintT(ToJson(<<17, IF MustReject THEN 1 ELSE 0, Len(d)>> \o d))
 =============================================================================
